@@ -11,6 +11,7 @@ import (
 	"fmt"
 	"sync/atomic"
 
+	"github.com/theory/sqljson/path/ast"
 	"github.com/theory/sqljson/path/parser"
 )
 
@@ -60,11 +61,13 @@ type threadBody func(ctx context.Context) string
 var activeYield atomic.Pointer[func()]
 
 func init() {
-	parser.VerifHook = func(int) {
+	hook := func(int) {
 		if y := activeYield.Load(); y != nil {
 			(*y)()
 		}
 	}
+	parser.VerifHook = hook // every lexer token
+	ast.VerifHook = hook    // every node written by String()/Marshal*
 }
 
 // runSchedule executes the bodies under the scheduler, replaying prefix and
